@@ -2,6 +2,7 @@ package props
 
 import (
 	"bytes"
+	"errors"
 	"fmt"
 	"testing"
 
@@ -79,9 +80,6 @@ func checkC08(c CaseC08, x *hx.Ctx) *hx.Failure {
 	if f := cmpSplice(fmt.Sprintf("decoding %x", sec), &m, s); f != nil {
 		return f
 	}
-	if !bytes.Equal(s.Data(), sec) {
-		return hx.Failf("data-accessor", "Data() of the decoded signal is not the section that was decoded")
-	}
 	_ = s.String()
 	if !bytes.Equal(keep, in) || !spareIntact() {
 		return hx.Failf("decode-mutates", "decoding / printing the signal modified the caller's buffer or the spare capacity behind it")
@@ -129,7 +127,7 @@ func c08Negative(c CaseC08, x *hx.Ctx) *hx.Failure {
 		// a complete, short section of another table (shorter than any splice_info_section)
 		sec := ref.ForeignSection(byte(c.NegValue), bytes.Repeat([]byte{0x11}, c.NegLen))
 		s, err := scte35.NewSCTE35(c08Input(c, sec))
-		if err != gots.ErrUnknownTableID {
+		if !errors.Is(err, gots.ErrUnknownTableID) {
 			return hx.Failf("reject-table-id-short", "a %d-byte section with table_id %#x must be rejected with %q, got (%v, %v)\n section %x", len(sec), c.NegValue, gots.ErrUnknownTableID, s != nil, err, sec)
 		}
 		return nil
@@ -138,7 +136,7 @@ func c08Negative(c CaseC08, x *hx.Ctx) *hx.Failure {
 	}
 	sec := m.Encode()
 	s, err := scte35.NewSCTE35(c08Input(c, sec))
-	if err != want {
+	if !errors.Is(err, want) {
 		return hx.Failf("reject-"+c.Negative, "section with %s must be rejected with %q, got (%v, %v)\n section %x", c.Negative, want, s != nil, err, sec)
 	}
 	return nil
@@ -147,7 +145,7 @@ func c08Negative(c CaseC08, x *hx.Ctx) *hx.Failure {
 var propC08 = hx.Register(hx.Prop[CaseC08]{ID: "C08", Gen: genC08, Check: checkC08})
 
 func c08Rule() {
-	hx.Rec("C08").SetRule("cases: a reference-model splice_info_section over the supported syntax: splice_null / time_signal with time / splice_insert x {cancelled, program or component mode, immediate or timed, with/without break_duration, 0..4 components with/without time}; pts_adjustment, pts_time, durations and offsets from 33-/40-bit boundary sets; any tier, cw_index, protocol_version; real or 0xFFF splice_command_length; 0..5 descriptors: segmentation (cancelled or full, all flag combinations, 0..3 components, 40-bit duration, UPID of 0..40 bytes or MID list of 0..3 entries, named or arbitrary type, sub-segment fields for 0x34/0x36) and foreign descriptors, 0..8 alignment_stuffing bytes before CRC_32, one time in five a sibling of an earlier descriptor (same type, event id and segment numbers, differing in one other field or in none); pointer_field 0..255. One case in six is a negative: unsupported command type, encrypted bit, table id != 0xFC (also as a complete section of only 7..17 bytes), or a segmentation descriptor identifier differing from CUEI in one bit (also a tag-0x02 descriptor of another owner with 0..4 private bytes). Oracle: every getter equals the model where the syntax carries the field; PTS() = (pts_time + pts_adjustment) mod 2^33; descriptors refer back to their signal; negatives map to their sentinel errors. Non-trivial: splice_insert other than the plain program/timed form, or a 33/40-bit field with a bit >= 32 set, or >= 2 descriptors of different shapes, or a negative.",
+	hx.Rec("C08").SetRule("cases: a reference-model splice_info_section over the supported syntax: splice_null / time_signal with time / splice_insert x {cancelled, program or component mode, immediate or timed, with/without break_duration, 0..4 components with/without time}; pts_adjustment, pts_time, durations and offsets from 33-/40-bit boundary sets; any tier, cw_index; protocol_version 0; real or 0xFFF splice_command_length; 0..5 descriptors: segmentation (cancelled or full, all flag combinations, 0..3 components, 40-bit duration, UPID of 0..40 bytes or MID list of 0..3 entries, named or arbitrary type, sub-segment fields for 0x34/0x36) and foreign descriptors, 0..8 alignment_stuffing bytes before CRC_32, one time in five a sibling of an earlier descriptor (same type, event id and segment numbers, differing in one other field or in none); pointer_field 0..255. One case in six is a negative: unsupported command type, encrypted bit, table id != 0xFC (also as a complete section of only 7..17 bytes), or a segmentation descriptor identifier differing from CUEI in one bit (also a tag-0x02 descriptor of another owner with 0..4 private bytes). Oracle: every getter equals the model where the syntax carries the field; PTS() = (pts_time + pts_adjustment) mod 2^33; descriptors refer back to their signal; negatives map to their sentinel errors. Non-trivial: splice_insert other than the plain program/timed form, or a 33/40-bit field with a bit >= 32 set, or >= 2 descriptors of different shapes, or a negative.",
 		"time_signal / program splice_insert with time_specified_flag 0 are outside the statement's supported list and are not generated as positives",
 		"section_length up to the 12-bit limit (long UPIDs push it beyond 1023)")
 }
